@@ -90,20 +90,64 @@ def param_lists(setup, N, params, defaults):
     return out
 
 
-def build_circuit(N, gates, p8=True):
-    """gates: [name, targets, controls, angle]; angle = multiple of pi/8 (p8=True) or a float"""
+FORMS = ["name", "class", "generic", "moved", "mixed"]
+CONTS = ["list", "tuple", "array", "npint"]
+
+
+def _container(qs, cont):
+    """targets / controls in the container the caller might use"""
+    qs = list(qs)
+    if not qs:
+        return None
+    if cont == "tuple":
+        return tuple(qs)
+    if cont == "array":
+        return np.array(qs)
+    if cont == "npint":
+        return [np.int64(q) for q in qs]
+    return qs
+
+
+def make_gate(n, t, c, a, form, cont=None):
+    """one gate in the given OBJECT FORM: 'class' = instance of the library class of that name (generic Gate when the library
+    has no class for it), 'generic' = Gate(name, ...) object"""
+    import qutip_qip.operations as O
+    kw = {"targets": _container(t, cont)}
+    if c:
+        kw["controls"] = _container(c, cont)
+    if a is not None:
+        kw["arg_value"] = a
+    cls = O.GATE_CLASS_MAP.get(n) if form == "class" else None
+    if cls is not None:
+        return cls(**kw)
+    return O.Gate(n, **kw)
+
+
+def build_circuit(N, gates, p8=True, form=None, cont=None):
+    """gates: [name, targets, controls, angle]; angle = multiple of pi/8 (p8=True) or a float.
+    form: how the gates reach the circuit - 'name' (add_gate(name, targets=...)), 'class' (instance of the library class),
+    'generic' (Gate(name, ...) object), 'moved' (the gate objects of ANOTHER circuit are added to this one), 'mixed' (gate k
+    in form k mod 4); cont: container of targets / controls (list, tuple, numpy array, list of numpy integers)."""
     from qutip_qip.circuit import QubitCircuit
     qc = QubitCircuit(N)
-    for n, t, c, a in gates:
-        kw = {}
-        if a is not None:
-            kw["arg_value"] = (a * PI8) if p8 else a
-        qc.add_gate(n, targets=(list(t) or None), controls=(list(c) or None), **kw)
+    src = QubitCircuit(N) if form in ("moved", "mixed") else None
+    for k, (n, t, c, a) in enumerate(gates):
+        av = None if a is None else ((a * PI8) if p8 else a)
+        f = form if form != "mixed" else ["name", "class", "generic", "moved"][k % 4]
+        if f in ("class", "generic"):
+            qc.add_gate(make_gate(n, t, c, av, f, cont))
+        elif f == "moved":
+            kw = {} if av is None else {"arg_value": av}
+            src.add_gate(n, targets=_container(t, cont), controls=_container(c, cont), **kw)
+            qc.add_gate(src.gates[-1])
+        else:
+            kw = {} if av is None else {"arg_value": av}
+            qc.add_gate(n, targets=_container(t, cont), controls=_container(c, cont), **kw)
     return qc
 
 
-def wit(setup, N, mode, params, gates, p8=True):
-    return {"kind": "load", "setup": setup, "N": N, "mode": mode,
+def wit(setup, N, mode, params, gates, p8=True, form=None, cont=None):
+    return {"kind": "load", "setup": setup, "N": N, "mode": mode, **({"form": form} if form else {}), **({"cont": cont} if cont else {}),
             "params": None if params is None else {k: ([float(x) for x in v] if isinstance(v, (list, tuple)) else float(v))
                                                    for k, v in params.items()},
             "gates": [[n, list(t), list(c), (None if a is None else (a * PI8 if p8 else a))] for n, t, c, a in gates]}
@@ -336,8 +380,8 @@ def check_history(w):
     import qutip
     from qutip_qip.compiler import SpinChainCompiler
     try:
-        qcs = [build_circuit(N, s["gates"], p8=False) for s in steps]
-        Vs = [qc.compute_unitary().full() for qc in qcs]
+        Vs = [build_circuit(N, s["gates"], p8=False).compute_unitary().full() for s in steps]
+        qcs = [build_circuit(N, s["gates"], p8=False, form=w.get("form"), cont=w.get("cont")) for s in steps]
     except Exception as e:
         return False, f"circuit not constructible / no unitary ({type(e).__name__})"
     proc = make_processor(setup, N, w.get("params"))
@@ -368,22 +412,142 @@ def check_history(w):
     return False, f"every one of the {len(steps)} loads on one processor reproduces the unitary of its circuit"
 
 
+def apply_op(cur, op):
+    """the gate list after one edit (pure)"""
+    cur = [list(g) for g in cur]
+    o = op["op"]
+    if o == "set_arg":
+        cur[op["k"]][3] = op["value"]
+    elif o == "set_qubits":
+        cur[op["k"]][1], cur[op["k"]][2] = list(op["targets"]), list(op["controls"])
+    elif o == "replace":
+        cur[op["k"]] = list(op["gate"])
+    elif o == "append":
+        cur.append(list(op["gate"]))
+    elif o == "insert":
+        cur.insert(op["k"], list(op["gate"]))
+    elif o == "remove":
+        del cur[op["k"]]
+    return cur
+
+
+def apply_op_live(qc, op, p8=False, form=None):
+    """the same edit on the LIVE circuit object: fields of a gate object are assigned in place, gates are replaced / appended /
+    removed in qc.gates"""
+    o = op["op"]
+    sc = (lambda a: None if a is None else (a * PI8 if p8 else a))
+    if o == "set_arg":
+        qc.gates[op["k"]].arg_value = sc(op["value"])
+    elif o == "set_qubits":
+        g = qc.gates[op["k"]]
+        g.targets = list(op["targets"]) or None
+        g.controls = list(op["controls"]) or None
+    elif o in ("replace", "append", "insert"):
+        n, t, c, a = op["gate"]
+        f = form if form in ("class", "generic") else "class"
+        g = make_gate(n, t, c, sc(a), f)
+        if o == "replace":
+            qc.gates[op["k"]] = g
+        elif o == "append":
+            qc.add_gate(g)
+        else:
+            qc.gates.insert(op["k"], g)
+    elif o == "remove":
+        del qc.gates[op["k"]]
+
+
+def live_loads(w):
+    """the single-load witnesses a live history goes through (gate list at the moment of every load)"""
+    cur, out = [list(g) for g in w["gates"]], []
+    for op in w["ops"]:
+        if op["op"] == "load":
+            out.append({"kind": "load", "setup": w["setup"], "N": w["N"], "mode": op.get("mode"), "params": w.get("params"),
+                        "gates": [list(g) for g in cur]})
+        else:
+            try:
+                cur = apply_op(cur, op)
+            except Exception:
+                return None
+    return out
+
+
+def check_live(w):
+    """witness kind 'live': ONE processor, ONE circuit object (and, with compiler = 'shared', ONE compiler object passed as
+    `compiler=`); between the loads the circuit object is edited in place (angle / qubits of a gate assigned, a gate replaced,
+    appended, inserted, removed).  After EVERY load: propagator of the stored pulses x reported global phase = unitary of the
+    circuit AS IT IS NOW (reference: a fresh circuit built from the current gate list by names)."""
+    setup, N = w["setup"], w["N"]
+    loads = live_loads(w)
+    if not loads or not all(in_class(x) for x in loads):
+        return False, "outside the property's class"
+    import qutip
+    from qutip_qip.compiler import SpinChainCompiler
+    try:
+        Vs = [build_circuit(N, x["gates"], p8=False).compute_unitary().full() for x in loads]
+        qc = build_circuit(N, w["gates"], p8=False, form=w.get("form"))
+    except Exception as e:
+        return False, f"circuit not constructible / no unitary ({type(e).__name__})"
+    proc = make_processor(setup, N, w.get("params"))
+    shared = SpinChainCompiler(N, proc.params, setup=setup) if w.get("compiler") == "shared" else None
+    k, told = 0, []
+    for op in w["ops"]:
+        if op["op"] != "load":
+            try:
+                apply_op_live(qc, op, form=w.get("form"))
+            except Exception as e:
+                return False, f"the edit {op} is not possible on the live circuit object ({type(e).__name__})"
+            told.append(op["op"])
+            continue
+        x, V = loads[k], Vs[k]
+        k += 1
+        how = (f"load_circuit(qc, schedule_mode={op.get('mode')!r}" + (", compiler=<the same compiler object>)" if shared else ")")
+               if op.get("via") != "run_state" else "run_state(init_state, qc=qc, analytical=True)")
+        try:
+            with SC.patched(None):
+                if op.get("via") == "run_state":
+                    proc.run_state(qutip.basis([2] * N, [0] * N), qc=qc, analytical=True)
+                elif shared is not None:
+                    proc.load_circuit(qc, schedule_mode=op.get("mode"), compiler=shared)
+                else:
+                    proc.load_circuit(qc, schedule_mode=op.get("mode"))
+            U = run_product(proc)
+        except Exception as e:
+            f1 = check_property(x)[0]
+            return True, (f"load {k} of {len(loads)} of ONE circuit object on ONE {setup}({N}) processor (edits so far: {told or 'none'}): "
+                          f"{how} raises {type(e).__name__}: {str(e)[:80]}" +
+                          ("; a fresh circuit with the same gates on a fresh processor loads exactly" if not f1 else ""))
+        d = float(np.abs(U - V).max())
+        if d > 1e-9 + tiny_slack(x):
+            f1 = check_property(x)[0]
+            return True, (f"load {k} of {len(loads)} of ONE circuit object on ONE {setup}({N}) processor after the in-place edits "
+                          f"{told or 'none'}, {how}: propagator of the loaded pulses (reported global phase {proc.global_phase:.6g} "
+                          f"included) differs from the unitary of the circuit as it is now by {d:.3g}" +
+                          ("; a fresh circuit with the same gates on a fresh processor is exact" if not f1
+                           else "; a fresh circuit / processor fails as well"))
+    return False, f"every one of the {len(loads)} loads of the edited circuit object reproduces its current unitary"
+
+
 def check_property(w):
     """The property on the real code for one witness -> (fails, detail)."""
     if w.get("kind") == "label":
         return check_label(w)
     if w.get("kind") == "history":
         return check_history(w)
+    if w.get("kind") == "live":
+        return check_live(w)
     if not in_class(w):
         return False, "outside the property's class"
     setup, N = w["setup"], w["N"]
+    objform = (w.get("form") or "name") != "name" or (w.get("cont") or "list") != "list"
     try:
-        qc = build_circuit(N, w["gates"], p8=False)
+        ref = build_circuit(N, w["gates"], p8=False)
+        qc = build_circuit(N, w["gates"], p8=False, form=w.get("form"), cont=w.get("cont")) if objform else ref
     except Exception as e:
         return False, f"circuit not constructible ({type(e).__name__})"
     proc = make_processor(setup, N, w.get("params"))
     try:
-        V = qc.compute_unitary().full()
+        # the reference is the circuit built by gate NAMES with plain lists (independent of the object form under test)
+        V = ref.compute_unitary().full()
     except Exception as e:
         return False, f"circuit has no unitary ({type(e).__name__})"
     try:
@@ -394,7 +558,15 @@ def check_property(w):
         if other:
             # a name outside the set the spin-chain processors accept: refusing is allowed, compiling it wrongly is not
             return False, f"refused ({type(e).__name__}): {other} not among the gates the processors accept"
-        return True, f"load_circuit raises {type(e).__name__}: {str(e)[:80]}"
+        if (w.get("cont") or "list") != "list":
+            try:
+                qc.compute_unitary()
+            except Exception:
+                return False, f"the circuit object itself has no unitary with {w.get('cont')} targets (outside the class)"
+        return True, (f"load_circuit raises {type(e).__name__}: {str(e)[:80]}" +
+                      (f" (gates given as {w.get('form') or 'name'} objects, {w.get('cont') or 'list'} targets; the same circuit "
+                       "built from gate names is " + ("refused as well" if check_property(dict(w, form=None, cont=None))[0]
+                                                       else "loaded exactly") + ")" if objform else ""))
     # second sentence of the property: every exchange gate of the transpiled circuit sits on a coupling of its qubits
     try:
         from qutip_qip.compiler import SpinChainCompiler
@@ -421,6 +593,7 @@ def check_property(w):
     if d > 1e-9 + slack:
         return True, (f"propagator of the compiled pulses (reported global phase {proc.global_phase:.6g} included) differs from "
                       f"the circuit unitary by {d:.3g}" +
+                      (f" [gates given as {w.get('form') or 'name'} objects, {w.get('cont') or 'list'} targets]" if objform else "") +
                       (f" (rotations by {slack:.2g} in total have pulses below the grid resolution 1e-10)" if slack else ""))
     return False, f"same unitary (max entry difference {d:.2g})"
 
@@ -446,6 +619,8 @@ def tiny_rotation(w):
     then reads the coefficients of the channel one slot off.  Decided on the INPUT (angles and strengths), not on the code."""
     if w.get("kind") == "history":
         return any(tiny_rotation(step_witness(w, s)) for s in w["steps"])
+    if w.get("kind") == "live":
+        return any(tiny_rotation(x) for x in (live_loads(w) or []))
     if w.get("kind") != "load":
         return False
     par = w.get("params") or {}
@@ -497,6 +672,59 @@ def no_pulse(w, drops=False):
     """the circuit needs no pulse at all: empty, or only GLOBALPHASE gates (and, when the compiler drops instructions of
     duration 0, rotations by exactly 0)"""
     return all(g[0] == "GLOBALPHASE" or (drops and g[0] in ("RX", "RZ", "PHASEGATE") and g[3] == 0) for g in w["gates"])
+
+
+def live_hist(setup, N, params, ck, form, base, script):
+    """a live history in the terms of the correspondence: base gate list and script (p8 angles; script entries are
+    {"op": "load", "mode": m} or edit ops) -> history tuple whose steps carry the gate list at the moment of every load, plus
+    the edits to apply to the ONE circuit object before each load"""
+    cur, steps, edits, pend = [list(g) for g in base], [], [], []
+    for op in script:
+        if op["op"] == "load":
+            steps.append((op.get("mode"), [list(g) for g in cur], None))
+            edits.append(pend)
+            pend = []
+        else:
+            cur = apply_op(cur, op)
+            pend.append(op)
+    return (setup, N, params, ck, steps, {"form": form, "base": [list(g) for g in base], "script": script, "edits": edits})
+
+
+def _p8f(a):
+    return None if a is None else a * PI8
+
+
+def live_witness(setup, N, fparams, ck, live):
+    """the oracle witness (float angles) of a live history of the correspondence"""
+    ops = []
+    for op in live["script"]:
+        op = dict(op)
+        if "value" in op:
+            op["value"] = _p8f(op["value"])
+        if "gate" in op:
+            n, t, c, a = op["gate"]
+            op["gate"] = [n, list(t), list(c), _p8f(a)]
+        ops.append(op)
+    return {"kind": "live", "setup": setup, "N": N, "params": fparams, "compiler": ck, "form": live.get("form"),
+            "gates": [[n, list(t), list(c), _p8f(a)] for n, t, c, a in live["base"]], "ops": ops}
+
+
+_TUP = {}
+SEQ_CONTS = ("tuple", "array")
+
+
+def seq_targets_ok():
+    """does Gate keep its qubits as lists whatever sequence they are given in (fixes/C06-3.patch)?  observed on the live
+    objects"""
+    key = paths.REPO
+    if key not in _TUP:
+        try:
+            from qutip_qip.operations import Gate
+            _TUP[key] = (isinstance(Gate("RX", targets=(0,), arg_value=1.0).targets, list) and
+                         isinstance(Gate("ISWAP", targets=np.array([0, 1])).targets, list))
+        except Exception:
+            _TUP[key] = False
+    return _TUP[key]
 
 
 # ------------------------------------------------------------------------------------------
@@ -559,7 +787,7 @@ class C06(PropertyCheck):
     theorems = ["QipVerif.C06." + t for t in (
         "tables_tie", "rot_calibrated", "iswap_calibrated", "sqrtiswap_calibrated", "closed_forms_are_groups",
         "label_connects", "label_connects_iff", "C06_counterexample_label",
-        "phase_accumulated", "end_to_end_partial",
+        "phase_accumulated", "load_ignores_history", "end_to_end_partial",
         "propagator_is_exponential", "rot_calibrated_exp", "iswap_calibrated_exp", "sqrtiswap_calibrated_exp",
         "end_to_end_exp_partial", "end_to_end_pulses_partial", "end_to_end_pulses_scheduled_partial",
         "end_to_end_pulses_model_partial")] + [
@@ -673,9 +901,15 @@ class C06(PropertyCheck):
     # ---------------------------------------------------------------------------------
     def regenerate(self, ctx):
         self.info = T_sc.regenerate()
-        self.pre = detect_pre()
         self.skip_zero = self.info["drops"]
         self.empty_ok = self.info["empty_ok"]
+        try:
+            self.pre = detect_pre()
+        except TranslatorError:
+            # ModelProcessor.transpile / _decompose_multi_qubit_gates no longer recognised: the check is red (the error is
+            # passed on), the correspondence and the search go on with the behaviour observed on the live objects
+            self.pre = behavioural_flags()[0]
+            raise
         out = ["SpinChainTables.lean"]
         # end_to_end_pulses_partial is a theorem about C12's source-driven model `compileS Gen.concatSrc`: keep the
         # description of _concatenate_pulses / compile current for the tree under check (TranslatorError -> red)
@@ -778,7 +1012,8 @@ class C06(PropertyCheck):
         defaults = self.info["defaults"]
         spent = 0.0
         lines, dens = [], []
-        for setup, N, mode, params, gates in cases:
+        cases = [tuple(c) + ((None,) if len(c) == 5 else ()) for c in cases]
+        for setup, N, mode, params, gates, opts in cases:
             pl = param_lists(setup, N, params, defaults)
             lines.append(f"load setup={setup} n={N} mode={mode or 'none'} pre={1 if self.pre else 0} phase0=0 "
                          f"sx={','.join(map(rs, pl['sx']))} sz={','.join(map(rs, pl['sz']))} "
@@ -786,16 +1021,21 @@ class C06(PropertyCheck):
             dens.append(f"den k={N} gates={';'.join(map(enc_gate, gates)) or '-'}")
         outs = ctx.driver("drv_spinchain").run(lines)
         dout = ctx.driver("drv_gates").run(dens) if e2e else [None] * len(cases)
-        for (setup, N, mode, params, gates), o, dn in zip(cases, outs, dout):
-            inp = {"setup": setup, "N": N, "mode": mode, "gates": [list(g) for g in gates],
+        for (setup, N, mode, params, gates, opts), o, dn in zip(cases, outs, dout):
+            opts = opts or {}
+            inp = {"setup": setup, "N": N, "mode": mode, "gates": [list(g) for g in gates], **opts,
                    "params": None if params is None else {k: ([rs(x) for x in v] if isinstance(v, (list, tuple)) else rs(v))
                                                           for k, v in params.items()}}
-            w = wit(setup, N, mode, params, gates)
+            w = wit(setup, N, mode, params, gates, form=opts.get("form"), cont=opts.get("cont"))
             st, mph, mnat, mins = parse_load(o)
             try:
-                qc = build_circuit(N, gates)
+                qc = build_circuit(N, gates, form=opts.get("form"), cont=opts.get("cont"))
+                if opts.get("cont") not in (None, "list"):
+                    qc.compute_unitary()          # a container the circuit itself cannot use is outside the class
             except Exception:
                 continue
+            if opts.get("cont") in SEQ_CONTS and not seq_targets_ok():
+                continue                          # class `sequence-targets` (candidate finding, fixes/C06-3): judged by the oracle only
             proc = make_processor(setup, N, params)
             # stage 1: transpile
             tst, tq = impl_transpile(proc, qc)
@@ -820,6 +1060,8 @@ class C06(PropertyCheck):
             n3 = has_three_qubit_gate(w)
             tags = [kind, f"setup={setup}", f"N={N}", f"mode={mode}", "verdict=" + st, f"len={min(len(gates), 8)}",
                     "params=" + ("default" if params is None else "vector")]
+            if opts:
+                tags += [f"form={opts.get('form') or 'name'}", f"targets={opts.get('cont') or 'list'}"]
             if n3:
                 tags.append("three-qubit-gate")
             res.case(inp, nontrivial=(st != "ok" or bool(mins)), tags=tags)
@@ -911,6 +1153,8 @@ class C06(PropertyCheck):
 
         # model answers: independent loads in one batch; shared-compiler histories chained step by step
         answers, batch, where = {}, [], []
+        lives = [h[5] if len(h) > 5 else None for h in hists]
+        hists = [tuple(h[:5]) for h in hists]
         for hi, (setup, N, params, ck, steps) in enumerate(hists):
             if ck == "shared":
                 ph = Fraction(0)
@@ -931,15 +1175,23 @@ class C06(PropertyCheck):
         for hi, (setup, N, params, ck, steps) in enumerate(hists):
             fp = None if params is None else {k: ([float(x) for x in v] if isinstance(v, (list, tuple)) else float(v))
                                               for k, v in params.items()}
+            live = lives[hi]
             w = {"kind": "history", "setup": setup, "N": N, "params": fp, "compiler": ck,
                  "steps": [dict({"mode": mode, "gates": wit(setup, N, mode, None, gates)["gates"]},
                                 **({"via": via} if via else {})) for (mode, gates, via) in steps]}
+            if live is not None:
+                w = live_witness(setup, N, fp, ck, live)
+            qc_live = None
             inp = {"history": [[mode, [list(g) for g in gates], via] for (mode, gates, via) in steps], "setup": setup, "N": N,
                    "compiler": ck, "params": None if params is None else {k: ([rs(x) for x in v] if isinstance(v, (list, tuple)) else rs(v))
                                                                            for k, v in params.items()}}
             repeats = sum(1 for k in range(1, len(steps)) if any(steps[j][1] == steps[k][1] for j in range(k)))
-            res.case(inp, nontrivial=len(steps) >= 2, tags=[kind, f"steps={len(steps)}", "compiler=" + ck,
-                                                             "same circuit again=" + str(min(repeats, 3))])
+            if live is not None:
+                inp["live"] = {"form": live.get("form"), "base": live["base"], "script": live["script"]}
+            res.case(inp, nontrivial=len(steps) >= 2, tags=[kind + ("-live" if live is not None else ""), f"steps={len(steps)}",
+                                                             "compiler=" + ck, "same circuit again=" + str(min(repeats, 3))] +
+                     ([f"form={live.get('form') or 'name'}"] +
+                      sorted({"edit=" + o["op"] for o in live["script"] if o["op"] != "load"}) if live is not None else []))
             proc = make_processor(setup, N, params)
             shared = SpinChainCompiler(N, proc.params, setup=setup) if ck == "shared" else None
             for k, (mode, gates, via) in enumerate(steps):
@@ -947,7 +1199,15 @@ class C06(PropertyCheck):
                 st, mph, mnat, mins = parse_load(o)
                 mst = T_ERR.get(st, st) if st.startswith("err transpile:") else st
                 try:
-                    qc = build_circuit(N, gates)
+                    if live is None:
+                        qc = build_circuit(N, gates)
+                    else:
+                        # ONE circuit object: built once, then edited in place before every later load
+                        if qc_live is None:
+                            qc_live = build_circuit(N, live["base"], form=live.get("form"))
+                        for op in live["edits"][k]:
+                            apply_op_live(qc_live, op, p8=True, form=live.get("form"))
+                        qc = qc_live
                 except Exception:
                     break
                 try:
@@ -973,7 +1233,7 @@ class C06(PropertyCheck):
                         # the stored pulses: bit-exact those of a first load on a fresh processor
                         ref = make_processor(setup, N, params)
                         with SC.patched(None):
-                            ref.load_circuit(qc, schedule_mode=mode)
+                            ref.load_circuit(qc if live is None else build_circuit(N, gates), schedule_mode=mode)
                         for a, b in zip(proc.pulses, ref.pulses):
                             same = (a.label == b.label and (a.tlist is None) == (b.tlist is None) and (a.coeff is None) == (b.coeff is None)
                                     and (a.tlist is None or np.array_equal(np.asarray(a.tlist), np.asarray(b.tlist)))
@@ -1044,6 +1304,117 @@ class C06(PropertyCheck):
             N = max(1, nc + nt)
             g = [name, list(range(nt)), list(range(nt, nt + nc)), (6 if par else None)]
             out.append(("linear", N, None, "fresh", [("ASAP", [g], None), ("ASAP", [g], None)]))
+        return out
+
+    # --- object forms, special angles, live circuit objects -------------------------------------------------------
+    SPECIAL_P8 = [0, 16, -16, 32, -32, 48, -48, 80, 64, -96, 4, -4, 12, 20, -28, 36, 8, -8, 24, 40,
+                  8000, -16016, 80016, 8004, 800000]
+
+    def _object_form_cases(self, rng, n_rand, thorough=False):
+        """every accepted gate in every object form (library class instance, generic Gate(name, ...) object, gate objects
+        taken over from another circuit, mixed) - TOFFOLI / FREDKIN as generic objects included -, then random circuits in a
+        random form with list / tuple / numpy-array / numpy-integer targets"""
+        cases = []
+        for form in FORMS[1:]:
+            for name in ACCEPTED:
+                nc, nt, par = SHAPE[name]
+                if nc + nt > 2 and (not self.pre or (not thorough and form not in ("generic", "moved"))):
+                    continue          # (quick tier: 3-qubit gates as generic objects and as objects of another circuit)
+                N = max(2, nc + nt)
+                g = [name, list(range(nt)), list(range(nt, nt + nc)), (6 if par else None)]
+                cases.append(("linear", N, "ASAP", None, [["RX", [N - 1], [], 2], g], {"form": form}))
+            if self.pre and thorough:
+                cases.append(("circular", 4, "ALAP", None, [["TOFFOLI", [3], [0, 2], None], ["FREDKIN", [0, 2], [1], None],
+                                                             ["RY", [1], [], 6]], {"form": form}))
+        two = [n for n in ACCEPTED if SHAPE[n][0] + SHAPE[n][1] <= 2]
+        for _ in range(n_rand):
+            names = two if (rng.random() < 0.7 or not self.pre or not thorough) else ACCEPTED
+            c = self._rand_case(rng, names, maxlen=5, even=True, zero=(rng.random() < 0.3))
+            cases.append(tuple(c) + ({"form": rng.choice(FORMS), "cont": rng.choice(CONTS)},))
+        return cases
+
+    def _special_angle_cases(self):
+        """rotations / phase gates by exactly 0, +-2 pi, +-4 pi, odd and even multiples of 2 pi, k pi/2, huge multiples of pi:
+        alone, and the same angle in parallel on two qubits followed by an exchange gate"""
+        cases = []
+        for p8 in self.SPECIAL_P8:
+            for name in ("RX", "RY", "RZ", "PHASEGATE"):
+                cases.append(("linear", 1, "ASAP", None, [[name, [0], [], p8]]))
+            cases.append(("linear", 1, None, None, [["RX", [0], [], 2], ["GLOBALPHASE", [], [], p8], ["RZ", [0], [], p8]]))
+            for mode in MODES:
+                cases.append(("circular", 2, mode, {"sx": [Fraction(1, 4), Fraction(1, 2)], "sz": Fraction(1), "sxsy": Fraction(1, 8)},
+                              [["RX", [0], [], p8], ["RX", [1], [], 2 * p8], ["ISWAP", [0, 1], [], None], ["RZ", [1], [], p8]]))
+        return cases
+
+    def _rand_edit(self, rng, N, cur, names):
+        """one in-place edit of the gate list `cur` (p8 angles)"""
+        kinds = ["append", "insert"] + (["set_arg", "set_qubits", "replace", "remove"] if cur else [])
+        for _ in range(20):
+            o = rng.choice(kinds)
+            if o in ("append", "insert", "replace"):
+                g = self._rand_gate(rng, N, names, True, True)
+                if not g:
+                    continue
+                if o == "append":
+                    return {"op": "append", "gate": g}
+                k = rng.randrange(len(cur) + (1 if o == "insert" else 0)) if (cur or o == "insert") else 0
+                return {"op": o, "k": k, "gate": g}
+            k = rng.randrange(len(cur))
+            n, t, c, a = cur[k]
+            if o == "remove":
+                return {"op": "remove", "k": k}
+            if o == "set_arg" and a is not None:
+                return {"op": "set_arg", "k": k, "value": rng.choice([v for v in self.SPECIAL_P8[:20] + [2, 6, -10] if v != a])}
+            if o == "set_qubits" and len(t) + len(c) <= N:
+                qs = rng.sample(range(N), len(t) + len(c))
+                if qs[:len(t)] != list(t) or qs[len(t):] != list(c):
+                    return {"op": "set_qubits", "k": k, "targets": qs[:len(t)], "controls": qs[len(t):]}
+        return {"op": "append", "gate": ["RX", [0], [], 2]}
+
+    def _rand_live(self, rng, names):
+        """ONE circuit object on ONE processor: load, 1-2 in-place edits, load again (another mode), ... 2-4 loads"""
+        setup = rng.choice(["linear", "circular"])
+        N = rng.randint(2 if setup == "circular" else 1, 4)
+        base = [g for g in (self._rand_gate(rng, N, names, True, False) for _ in range(rng.randint(1, 4))) if g]
+        cur, script = [list(g) for g in base], [{"op": "load", "mode": rng.choice(MODES)}]
+        for _ in range(rng.randint(1, 3)):
+            for _ in range(rng.randint(1, 2)):
+                op = self._rand_edit(rng, N, cur, names)
+                cur = apply_op(cur, op)
+                script.append(op)
+            script.append({"op": "load", "mode": rng.choice(MODES)})
+        ck = "shared" if rng.random() < 0.4 else "fresh"
+        return live_hist(setup, N, self._rand_params(rng, setup, N), ck, rng.choice(["name", "class", "generic", "mixed"]), base, script)
+
+    def _fixed_lives(self, thorough=False):
+        """a gate's angle assigned in place (to another value, to 0, to 2 pi), its qubits reassigned, the gate replaced,
+        a GLOBALPHASE appended / removed, the circuit emptied - each followed by a load with another schedule mode; with a
+        fresh compiler per load and with ONE compiler object passed as `compiler=`"""
+        out = []
+        L = lambda m: {"op": "load", "mode": m}
+        base = [["SNOT", [0], [], None], ["CNOT", [1], [0], None], ["RZ", [1], [], 6], ["GLOBALPHASE", [], [], 4]]
+        scripts = [
+            [L("ASAP"), {"op": "set_arg", "k": 2, "value": 10}, L("ALAP"), {"op": "set_arg", "k": 2, "value": 0}, L(None),
+             {"op": "set_arg", "k": 2, "value": 16}, L("ASAP")],
+            [L("ASAP"), {"op": "set_arg", "k": 3, "value": -6}, L("ASAP"), {"op": "remove", "k": 3}, L("ALAP"),
+             {"op": "append", "gate": ["GLOBALPHASE", [], [], 2]}, L(None)],
+            [L(None), {"op": "set_qubits", "k": 1, "targets": [0], "controls": [1]}, L("ASAP"),
+             {"op": "replace", "k": 0, "gate": ["RX", [1], [], 4]}, L("ALAP"), {"op": "insert", "k": 0, "gate": ["ISWAP", [0, 1], [], None]}, L("ASAP")],
+            [L("ASAP"), {"op": "remove", "k": 0}, {"op": "remove", "k": 0}, {"op": "remove", "k": 0}, L("ASAP"),
+             {"op": "remove", "k": 0}, L("ASAP"), {"op": "append", "gate": ["RY", [0], [], 4]}, L("ALAP")],
+        ]
+        combos = ([(su, f) for su in ("linear", "circular") for f in ("name", "class", "generic")] if thorough
+                  else [("linear", "class"), ("linear", "generic"), ("circular", "name")])
+        for setup, form in combos:
+            for ck in ("fresh", "shared"):
+                for sc in scripts:
+                    out.append(live_hist(setup, 2, None, ck, form, base, sc))
+        if source_flags()[0]:
+            b3 = [["TOFFOLI", [2], [0, 1], None], ["RX", [1], [], 4]]
+            sc = [L("ASAP"), {"op": "set_qubits", "k": 0, "targets": [0], "controls": [2, 1]}, L("ALAP"),
+                  {"op": "replace", "k": 0, "gate": ["FREDKIN", [0, 2], [1], None]}, L(None)]
+            for form in ("name", "generic"):
+                out.append(live_hist("linear", 3, None, "shared", form, b3, sc))
         return out
 
     def _compile_cases(self, ctx, res, cases, kind):
@@ -1224,6 +1595,25 @@ class C06(PropertyCheck):
                          "times in a row, circuits alternately, different schedule modes, the empty circuit in between, through "
                          "run_state(qc=...), one compiler object handed to every load); after every load: verdict, reported global "
                          "phase, stored pulses bit-exact against a first load on a fresh processor, exact unitary")
+        # object forms of the gates; special angles; ONE circuit object edited in place between the loads
+        oc = self._object_form_cases(rng, 600 if ctx.thorough else 50, ctx.thorough)
+        self._load_cases(ctx, res, oc, "object-form", e2e_budget=(120 if ctx.thorough else 6))
+        sa = self._special_angle_cases()
+        self._load_cases(ctx, res, sa, "special-angle", e2e_budget=(120 if ctx.thorough else 8))
+        lives = self._fixed_lives(ctx.thorough)
+        for i in range(300 if ctx.thorough else 20):
+            lives.append(self._rand_live(rng, two if (rng.random() < 0.8 or not self.pre) else ACCEPTED))
+        if not self.empty_ok:
+            lives = [h for h in lives if all(not no_pulse({"gates": gs}, self.skip_zero) for (_, gs, _) in h[4])]
+        self._history_cases(ctx, res, lives, "history")
+        res.notes.append(f"object forms: {len(oc)} circuits whose gates are library class instances, generic Gate(name, ...) objects "
+                         "(TOFFOLI / FREDKIN included), objects taken over from another circuit, mixed; list / tuple / numpy-array / "
+                         f"numpy-integer targets; special angles: {len(sa)} circuits (0, +-2 pi, +-4 pi, odd / even multiples of 2 pi, "
+                         f"k pi/2, up to 1e5 pi; alone and in parallel on two qubits); live objects: {len(lives)} histories of ONE "
+                         "circuit object on ONE processor (angle / qubits assigned in place, gate replaced, appended, inserted, "
+                         "removed between loads with different schedule modes; fresh compiler per load or one compiler object passed "
+                         "as compiler=); after every load the instruction-level comparison, phase, pulses and exact unitary of the "
+                         "CURRENT gate list")
         # direct compile: native gate lists incl. non-adjacent exchange gates, unsupported names, out-of-range qubits
         cases = []
         for i in range(1500 if ctx.thorough else 200):
@@ -1259,12 +1649,21 @@ class C06(PropertyCheck):
     def finding_matches(self, witness, finding):
         if finding.get("class") == "grid-step-below-tol":
             return tiny_rotation(witness)
+        if finding.get("class") == "sequence-targets":
+            return witness.get("cont") in SEQ_CONTS
         return PropertyCheck.finding_matches(self, witness, finding)
 
     def _excluded(self, w):
         """classes the hypotheses of end_to_end_partial exclude for the source as it is now"""
         if w.get("kind") == "label":
             return False
+        if w.get("cont") in SEQ_CONTS and not (seq_targets_ok() or class_recorded("sequence-targets")):
+            # qubits given as a tuple / numpy array (documented type: list or int): the circuit accepts them and has a unitary,
+            # but Instruction.__init__ calls .sort() on a tuple (AttributeError) and the routing compares arrays (exchange gates
+            # stay on uncoupled qubits and are SILENTLY compiled onto a wrong coupling) - candidate finding, fixes/C06-3.patch;
+            # the model's qubit lists are lists.  Tree as found: skipped until the class is recorded (then KNOWN-FINDING);
+            # tree with the patch: evaluated and must be exact
+            return True
         if tiny_rotation(w) and not (class_recorded() or self._catchup()):
             # excluded by hypothesis (SepAll).  Tree as found: once the class is a recorded known finding its members are
             # evaluated and matched by finding_matches (KNOWN-FINDING).  Repaired tree (fixes/C14-7): members are evaluated and
@@ -1272,6 +1671,8 @@ class C06(PropertyCheck):
             return True
         if w.get("kind") == "history":
             return any(self._excluded(step_witness(w, s)) for s in w["steps"])
+        if w.get("kind") == "live":
+            return any(self._excluded(x) for x in (live_loads(w) or []))
         pre, drops, empty_ok = source_flags()
         if has_three_qubit_gate(w) and not pre:
             return True
@@ -1319,6 +1720,59 @@ class C06(PropertyCheck):
                        "gates": [["RX", [0], [], 1.0], [name, [0], [], a], ["RX", [0], [], 1.0]]}
         yield {"kind": "load", "setup": "circular", "N": 3, "mode": None, "params": None,
                "gates": [["PHASEGATE", [0], [], 1e-9], ["RZ", [1], [], 0.7], ["RZ", [0], [], 1e-9], ["SWAP", [0, 1], [], None]]}
+        # object forms of the gates, special angles, ONE circuit object edited in place between the loads
+        yield from self._form_witnesses()
+        yield from self._special_witnesses()
+        yield from self._live_witnesses()
+
+    def _special_witnesses(self, wide=False):
+        """special angles (floats): k pi/2, +-2 pi m (odd and even m), tiny +-1e-9..1e-4, huge 1e3..1e6, alone; the same /
+        nearly the same angle (difference 1e-11..1e-7) in parallel on two qubits before an exchange gate"""
+        pi = math.pi
+        angs = ([k * pi / 2 for k in range(-8, 9)] + [s * 2 * pi * m for m in range(1, 7) for s in (1, -1)] +
+                [s * e for e in (1e-9, 1e-8, 1e-7, 1e-6, 1e-5, 1e-4) for s in (1, -1)] +
+                [1e3, 1e4, 1e5, 1e6, -31415.9, 2 * pi * 1000, 2 * pi * 1001, pi * (10 ** 5 + 1)])
+        for a in angs:
+            for name in ("RX", "RY", "RZ", "PHASEGATE", "GLOBALPHASE"):
+                gs = [[name, [0], [], a]] if name != "GLOBALPHASE" else [["RX", [0], [], 1.0], [name, [], [], a]]
+                yield {"kind": "load", "setup": "linear", "N": 1, "mode": "ASAP", "params": None, "gates": gs}
+        for a in (1.0, pi, 2 * pi):
+            for eps in (0.0, 1e-9, -1e-9, 3e-10, 1e-10, 1e-11, 1e-8, 1e-7):
+                for mode in (MODES if wide else ["ASAP", "ALAP"]):
+                    for nm in ("RX", "RZ"):
+                        yield {"kind": "load", "setup": "linear", "N": 2, "mode": mode, "params": None,
+                               "gates": [[nm, [0], [], a], [nm, [1], [], a + eps], ["ISWAP", [0, 1], [], None]]}
+
+    def _form_witnesses(self, wide=False):
+        """object forms: every accepted gate (3-qubit gates included) as a class instance, a generic Gate object, an object
+        taken over from another circuit; tuple / numpy-array / numpy-integer targets"""
+        pre = source_flags()[0]
+        for form in FORMS[1:]:
+            for name in ACCEPTED:
+                nc, nt, par = SHAPE[name]
+                if nc + nt > 2 and (not pre or (not wide and form != "generic")):
+                    continue          # (3-qubit gates on every run as generic objects only: a load of them takes ~0.3 s)
+                N = max(2, nc + nt)
+                for qs in (itertools.permutations(range(N), nc + nt) if wide else [tuple(range(nc + nt))]):
+                    g = [name, list(qs[:nt]), list(qs[nt:]), (0.7 if par else None)]
+                    yield {"kind": "load", "setup": "linear", "N": N, "mode": "ASAP", "params": None, "form": form,
+                           "gates": [["RX", [N - 1], [], 0.4], g]}
+        for cont in CONTS[1:]:
+            for form in ("name", "generic"):
+                yield {"kind": "load", "setup": "circular", "N": 3, "mode": "ALAP", "params": None, "form": form, "cont": cont,
+                       "gates": [["RX", [2], [], 0.4], ["CNOT", [0], [2], None], ["RZ", [1], [], -2.0], ["ISWAP", [1, 2], [], None]]}
+
+    def _live_witnesses(self):
+        for h in self._fixed_lives():
+            setup, N, params, ck, steps, live = h
+            yield live_witness(setup, N, None, ck, live)
+
+    def _rand_live_witness(self, rng):
+        names = [n for n in ACCEPTED if SHAPE[n][0] + SHAPE[n][1] <= 2 or source_flags()[0]]
+        setup, N, params, ck, steps, live = self._rand_live(rng, names)
+        fp = None if params is None else {k: ([float(x) for x in v] if isinstance(v, (list, tuple)) else float(v))
+                                          for k, v in params.items()}
+        return live_witness(setup, N, fp, ck, live)
 
     def _alphabet(self, wide=False):
         """EVERY other gate name of the library (GATE_CLASS_MAP, legacy names, aliases: CZ, CX, H, iSWAP, IDLE, ...) on
@@ -1343,6 +1797,8 @@ class C06(PropertyCheck):
         """every placement of every accepted gate x angle x mode (sampled by oracle_always, walked through by oracle_search)"""
         ang = self.ANG
         yield from self._alphabet(wide=True)
+        yield from self._form_witnesses(wide=True)
+        yield from self._special_witnesses(wide=True)
         for w in self._systematic_histories(three=True):
             yield w
         for setup in ("linear", "circular"):
@@ -1393,6 +1849,7 @@ class C06(PropertyCheck):
         """2-5 loads on one processor from a pool of 1-3 random circuits"""
         three = rng.random() < 0.2
         base = self._rand_witness(rng, three=three, zero=False)
+        base.pop("form", None), base.pop("cont", None)
         pool = [base["gates"]]
         for _ in range(rng.randint(0, 2)):
             w2 = None
@@ -1407,7 +1864,10 @@ class C06(PropertyCheck):
                 steps.append({"mode": "ASAP", "gates": rng.choice(pool), "via": "run_state"})
             else:
                 steps.append({"mode": rng.choice(modes), "gates": rng.choice(pool)})
-        return {"kind": "history", "setup": base["setup"], "N": base["N"], "params": base["params"], "compiler": ck, "steps": steps}
+        w = {"kind": "history", "setup": base["setup"], "N": base["N"], "params": base["params"], "compiler": ck, "steps": steps}
+        if rng.random() < 0.3:
+            w["form"] = rng.choice(FORMS)
+        return w
 
     def _rand_witness(self, rng, three=True, zero=True):
         setup = rng.choice(["linear", "circular"])
@@ -1436,7 +1896,12 @@ class C06(PropertyCheck):
             params = {"sx": [rng.choice([0.25, 0.5, 1.0, 0.3, 2.0]) for _ in range(N)],
                       "sz": [rng.choice([0.25, 0.5, 1.0, 0.7, 3.0]) for _ in range(N)],
                       "sxsy": [rng.choice([0.1, 0.125, 0.5, 1.0]) for _ in range(n_coupling(setup, N))]}
-        return {"kind": "load", "setup": setup, "N": N, "mode": rng.choice(MODES), "params": params, "gates": gs}
+        w = {"kind": "load", "setup": setup, "N": N, "mode": rng.choice(MODES), "params": params, "gates": gs}
+        if rng.random() < 0.3:
+            w["form"] = rng.choice(FORMS)
+            if rng.random() < 0.4:
+                w["cont"] = rng.choice(CONTS)
+        return w
 
     def oracle_search(self, ctx, budget_s):
         """failing inputs of the property; the classes that fail on the unchanged tree as recorded known findings (and are
@@ -1453,7 +1918,8 @@ class C06(PropertyCheck):
         i = 0
         while time.time() - t0 < budget_s:
             i += 1
-            w = self._rand_history_witness(ctx.rng) if i % 4 == 0 else self._rand_witness(ctx.rng)
+            w = (self._rand_history_witness(ctx.rng) if i % 4 == 0 else
+                 self._rand_live_witness(ctx.rng) if i % 4 == 2 else self._rand_witness(ctx.rng))
             if (w["kind"] == "load" and not w["gates"]) or self._excluded(w):
                 continue
             f, d = check_property(w)
@@ -1479,7 +1945,8 @@ class C06(PropertyCheck):
             if f:
                 yield w, d
         for i in range(1200 if ctx.thorough else 90):
-            w = self._rand_history_witness(ctx.rng) if i % 6 == 5 else self._rand_witness(ctx.rng)
+            w = (self._rand_history_witness(ctx.rng) if i % 6 == 5 else
+                 self._rand_live_witness(ctx.rng) if i % 6 == 2 else self._rand_witness(ctx.rng))
             if (w["kind"] == "load" and not w["gates"]) or self._excluded(w):
                 continue
             f, d = check_property(w)
